@@ -381,8 +381,11 @@ pub fn new_body(c: &NewCase, obs: &mut Obs) -> Result<(), String> {
 }
 
 fn table_strat() -> impl Strategy<Value = Vec<(String, String)>> {
-    vec((seg(), seg()), 0..4).prop_map(|mut t| {
-        // distinct search keys; no replacement equal to any search key (no chaining question)
+    (vec((seg(), seg()), 0..4), any::<u8>()).prop_map(|(mut t, chain)| {
+        // distinct search keys (which of two rules with one key wins is not documented). A
+        // replacement MAY equal another rule's search key: the documentation says every search
+        // item *that appears in the module path* is replaced, i.e. one pass over the original
+        // segments, so rules do not chain.
         let mut out: Vec<(String, String)> = vec![];
         for (k, v) in t.drain(..) {
             if out.iter().any(|(k2, _)| *k2 == k) {
@@ -390,8 +393,15 @@ fn table_strat() -> impl Strategy<Value = Vec<(String, String)>> {
             }
             out.push((k, v));
         }
-        let keys: Vec<String> = out.iter().map(|(k, _)| k.clone()).collect();
-        out.retain(|(_, v)| !keys.contains(v));
+        // often make the table chain-capable on purpose: rule i's replacement = rule j's key
+        if out.len() >= 2 && chain % 2 == 0 {
+            let j = (chain as usize / 2) % out.len();
+            let i = (j + 1) % out.len();
+            let key_j = out[j].0.clone();
+            if out[i].0 != key_j {
+                out[i].1 = key_j;
+            }
+        }
         out
     })
 }
@@ -419,7 +429,8 @@ pub fn c18_subs() -> Vec<Box<dyn Sub>> {
                         (Just(ident), Just(module), Just(table), Just(use_replace), prop::sample::select(all), seg(), any::<bool>())
                     })
                     .prop_map(|(ident, module, mut table, use_replace, hit, repl, add)| {
-                        if add && !table.iter().any(|(k, _)| *k == hit) && !table.iter().any(|(_, v)| *v == hit) && !table.iter().any(|(k, _)| *k == repl) && repl != hit {
+                        if add && !table.iter().any(|(k, _)| *k == hit) && repl != hit {
+                            // (the new rule may feed an existing one, or be fed by one: no chaining expected)
                             table.push((hit, repl));
                         }
                         NewCase { ident, module, table, use_replace }
